@@ -38,7 +38,9 @@ inline std::vector<sim::FlatObs> runHistory(const sim::Json &p) {
         int d = g.getNumDimensions();
         if (g.getNumOutputs() > 0 && g.getNumLoaded() > 0) {
             std::vector<double> y; g.evaluateBatch(X, y); x.round("evaluateBatch9", y);
-            if (g.isLocalPolynomial() || g.isWavelet()) { std::vector<int> pn, ix; std::vector<double> vl; g.evaluateSparseHierarchicalFunctions(X, pn, ix, vl); x.round("sparse_vals", vl); x.exacti("sparse_pntr", pn); x.exacti("sparse_indx", ix); }
+            if (g.isLocalPolynomial() || g.isWavelet()) { std::vector<int> pn, ix; std::vector<double> vl; g.evaluateSparseHierarchicalFunctions(X, pn, ix, vl); x.round("sparse_vals", vl); x.exacti("sparse_pntr", pn); x.exacti("sparse_indx", ix);
+                if (g.isLocalPolynomial()) { int nx = (int)(X.size() / (size_t)d); int nz = g.evaluateSparseHierarchicalFunctionsGetNZ(X.data(), nx); x.exacti("sparse_nz", std::vector<int>{nz});
+                    std::vector<int> sp((size_t)nx + 1), si((size_t)nz); std::vector<double> sv((size_t)nz); g.evaluateSparseHierarchicalFunctionsStatic(X.data(), nx, sp.data(), si.data(), sv.data()); x.round("sparse_static_vals", sv); x.exacti("sparse_static_indx", si); } }
             if ((g.isGlobal() && !TasGrid::OneDimensionalMeta::isNonNested(g.getRule())) || g.isSequence() || g.isFourier()) { try { std::vector<int> w; g.estimateAnisotropicCoefficients(TasGrid::type_iptotal, 0, w); x.exacti("aniso_coeffs", w); } catch (std::exception &e) { x.str("aniso_coeffs", e.what()); } }
             if (g.isGlobal() || g.isSequence()) { x.exacti("poly_space_i", g.getGlobalPolynomialSpace(true)); x.exacti("poly_space_q", g.getGlobalPolynomialSpace(false)); }
         }
